@@ -189,6 +189,11 @@ func transportConfigs(thorough bool) []tconfig {
 	// request bodies against a SETTINGS_MAX_FRAME_SIZE the server raises and lowers while a body is being sent
 	out = append(out, tconfig{Name: "transport/send/maxframe", SrvIWS: 1 << 20, ConnRoom: -1, PerStream: 20000, PerConn: 65535, SrvMaxFrame: 40000,
 		BodyN: []int64{30000}, WUk: []int64{65535}, MaxFrameV: []int64{16384, 40000}, MaxStreams: 1, Depth: depth + 1})
+	// a server that stops reading for a while: the Transport's writes (DATA, WINDOW_UPDATE, RST_STREAM) block
+	out = append(out, tconfig{Name: "transport/pause/send", SrvIWS: ledger.DefaultWindow, ConnRoom: -1, PerStream: 20000, PerConn: 65535,
+		BodyN: []int64{1000}, Pause: true, NoRet: true, MaxStreams: 2, Depth: depth + 3})
+	out = append(out, tconfig{Name: "transport/pause/recv", SrvIWS: ledger.DefaultWindow, ConnRoom: -1, PerStream: 20000, PerConn: 65535,
+		DataLen: []int64{5000}, Pads: []int{-1}, Pause: true, NoRet: true, MaxStreams: 1, Depth: depth + 2})
 	// response DATA against the transport's advertised windows
 	for _, per := range []int{10, 20000, 70000} {
 		out = append(out, tconfig{Name: fmt.Sprintf("transport/recv/stream%d", per), SrvIWS: ledger.DefaultWindow, ConnRoom: -1, PerStream: per, PerConn: 65535,
